@@ -2,7 +2,7 @@
    every expression without casts, including ?: middle operands that get parentheses inserted.
    The Module P is Main4's development with [render] replaced by [renderP] (generated text). *)
 From Coq Require Import List NArith Bool Arith Lia.
-From CV Require Import Ast.Defs Ast.Basics Ast.Ctx Ast.Stage1 Ast.Main1 Ast.Stage2 Ast.Main2 Ast.NoDecl Ast.Stage3
+From CV Require Import Ast.Defs Ast.Frag Ast.Basics Ast.Ctx Ast.Stage1 Ast.Main1 Ast.Stage2 Ast.Main2 Ast.NoDecl Ast.Stage3
                        Ast.Main3 Ast.Stage4 Ast.Stage5 Ast.Main4 Ast.Prep.
 Import ListNotations.
 
@@ -19,16 +19,6 @@ Proof.
   intros a H. destruct a; cbn [topn] in H; try discriminate; unfold prec, P_ATOM, P_PRE, P_POST, P_ASG; try lia.
   all: match goal with |- context [bin_prec ?o] => destruct o; cbn; lia end.
 Qed.
-
-(* a middle operand that keeps no parentheses and is an assignment contains no '?' *)
-Fixpoint mid_okP (e : expr) : bool :=
-  match e with
-  | EId _ _ | ENum _ _ => true
-  | EBin _ _ a b | EAsg _ _ a b | EComma _ a b | ECall _ a b | EIdx _ a b => mid_okP a && mid_okP b
-  | EPar _ a | EPre _ _ a | EPost _ _ a | ECall0 _ a | EMem _ _ a _ | ECast _ _ a => mid_okP a
-  | ECond _ _ c a b =>
-      (topn a || (negb (Nat.eqb (prec a) P_ASG) || negb (hasq (renderP a)))) && mid_okP c && mid_okP a && mid_okP b
-  end.
 
 Module P.
 (* ---------- how renderings end *)
